@@ -476,7 +476,7 @@ def run_hostile_component(seed, tier, name):
         b, _ = parse_model_out(f[:-2] + ".out")
         per_file[int(re.search(r"cases_(\d+)\.v", f).group(1))] = b
     lines = {c: open(os.path.join(outdir, "hostile_%s.txt" % c)).read().splitlines() for c in curves}
-    H = {"grid": [], "batch": [], "codec": [], "roundtrip": [], "prefix": [], "bad": [], "fuzz": [], "alloc": [], "dec": [], "widths": {}}
+    H = {"idpat": [], "grid": [], "batch": [], "codec": [], "roundtrip": [], "prefix": [], "bad": [], "fuzz": [], "alloc": [], "dec": [], "widths": {}}
     for ci, c in enumerate(curves):
         gm = [x for b in per_file.get(ci, []) for row in b if row and row[0] == 30 for x in row[1:]]
         bm = [x for b in per_file.get(ci, []) for row in b if row and row[0] == 31 for x in row[1:]]
@@ -500,6 +500,8 @@ def run_hostile_component(seed, tier, name):
                 if got != want:
                     res.disagreements.append(("grid:%s:cap=%d,n1=%d,n=%d,|L|=%d,|R|=%d" % (c, last["cap"], last["n1"], last["n"], last["lL"], last["lR"]), 30,
                                               "verify: implementation %s, shape model %s" % ("panics" if want == 9 else "returns", {9: "panics", 0: "returns", None: "gave no output"}[got])))
+            elif t[0] == "IDPAT":
+                H["idpat"].append(dict(curve=c, sample=int(t[2]), pattern=t[3], verify=int(t[4]), batch1=int(t[5]), batch2=int(t[6])))
             elif t[0] == "BATCH":
                 last = dict(curve=c, k=int(t[2]), code=int(t[3]))
                 H["batch"].append(last)
@@ -549,7 +551,7 @@ def run_hostile_component(seed, tier, name):
         if gi != len(gm) or bi != len(bm):
             res.disagreements.append(("grid:%s" % c, 30, "model evaluated %d/%d classes, harness recorded %d/%d" % (len(gm), len(bm), gi, bi)))
     res.hostile = H
-    res.cases = len(H["grid"]) + len(H["batch"]) + len(H["dec"]) + len(H["bad"]) + sum(int(f["iters"]) for f in H["fuzz"]) + len(H["prefix"])
+    res.cases = len(H["idpat"]) + len(H["grid"]) + len(H["batch"]) + len(H["dec"]) + len(H["bad"]) + sum(int(f["iters"]) for f in H["fuzz"]) + len(H["prefix"])
     for f, e in res.model_errors:
         res.disagreements.append(("model", 0, "model evaluation failed in %s: %s" % (os.path.basename(str(f)), str(e)[:300])))
     res.summary = {"hostile_grid": {"curve": "all", "line": "grid %d verify calls, %d batches, %d decoder cases, %d invalid-element cases" % (len(H["grid"]), len(H["batch"]), len(H["dec"]), len(H["bad"]))}}
